@@ -2,6 +2,7 @@ import Driver.Sexp
 import Driver.Util
 import Driver.Life
 import NopModel.Fungible
+import NopModel.Rpc
 open Nop Nop.Driver
 
 structure DState where
@@ -74,6 +75,27 @@ def step (d : DState) (line : String) : DState × Option String :=
       | (.error e', s') =>
         (d, some s!"err {e'.name} {match s'.fault with | .zombie _ => "zombie" | _ => "clean"}")
     | _, _, _, _, _ => (d, some "bad-op")
+  | some [.atom "rpc", .atom sk, .list (.atom "bs" :: bsx), .atom hex] =>
+    let mk (x : Sexp) : Option Rpc.Bound :=
+      match x with
+      | .list [.atom "b", .atom sel, .atom ta, .atom tr, rv] => do
+        let sel ← sel.toNat?
+        let a ← d.ty? ta
+        let r ← d.ty? tr
+        let v ← toVal rv
+        let args ← (match a with | .prod _ ts => some ts | _ => none)
+        pure { m := { sel, args, ret := r }, handler := fun _ => v }
+      | _ => none
+    match IntKind.ofName? sk, bsx.mapM mk, fromHex hex with
+    | some k, some bs, some bytes =>
+      let (r, s') := Rpc.dispatch k bs { bytes := bytes }
+      let st := match r.status with | none => "ok" | some e => e.name
+      let calls := if r.calls.isEmpty then "-" else
+        " ".intercalate (r.calls.map (fun c =>
+          let ty := (bs.find? (fun b => b.m.sel == c.1)).map (·.m.argsTy)
+          s!"{c.1}:{showVal (match ty with | some t => canon t c.2 | none => c.2)}"))
+      (d, some s!"{st} | {calls} | {toHex r.sent} | {bytes.length - s'.bytes.length}")
+    | _, _, _ => (d, some "bad-op")
   | some [.atom "fung", .atom ta, .atom tb] =>
     match d.ty? ta, d.ty? tb with
     | some a, some b => (d, some (if fungible a b then "1" else "0"))
